@@ -251,6 +251,15 @@ func (s *scen) doClose() {
 // act performs one action while the subscriber is parked (or, for the
 // unparked gates, concurrently with it).
 func (s *scen) act(a Act, parked bool) {
+	if atomic.LoadInt32(&s.inThen) != 0 && parked && a.What == "close" && !s.c.reconnect() {
+		// a gate reached by a later Subscribe call of a bare client: Close does not
+		// wait for Subscribe there, so it is simply made inline
+		atomic.StoreInt32(&s.stopCalled, 1)
+		s.log(Ev{T: "closecall"})
+		err := s.closer()
+		s.log(Ev{T: "closeret", OK: err == nil})
+		return
+	}
 	switch a.What {
 	case "close":
 		if s.closeWasCalled() {
